@@ -49,22 +49,24 @@ def _report(rep):
 
 
 class Config(object):
-    def __init__(self, backend="file", overwrite=True, default_rule="domain", rules=None):
+    def __init__(self, backend="file", overwrite=True, default_rule="domain", rules=None, encoding="utf-8"):
         self.backend = backend          # 'file' | 'memory'
         self.overwrite = overwrite
         self.default_rule = default_rule
-        self.rules = dict(rules or {})  # anchor bytes -> rule name (rules given to the constructor)
+        self.rules = dict(rules or {})  # anchor (bytes, or text) -> rule name (rules given to the constructor)
+        self.encoding = encoding
 
     def to_json(self):
         return {"backend": self.backend, "overwrite": self.overwrite, "default_rule": self.default_rule,
-                "rules": [[enc(a), n] for a, n in self.rules.items()]}
+                "rules": [[enc(a), n] for a, n in self.rules.items()], "encoding": self.encoding}
 
     @staticmethod
     def from_json(j):
-        return Config(j["backend"], j["overwrite"], j["default_rule"], {dec(a): n for a, n in j["rules"]})
+        return Config(j["backend"], j["overwrite"], j["default_rule"], {dec(a): n for a, n in j["rules"]},
+                      j.get("encoding", "utf-8"))
 
     def copy(self):
-        return Config(self.backend, self.overwrite, self.default_rule, dict(self.rules))
+        return Config(self.backend, self.overwrite, self.default_rule, dict(self.rules), self.encoding)
 
 
 class Index(object):
@@ -73,7 +75,12 @@ class Index(object):
     def __init__(self, config, folder=None):
         self.config = config
         self.default_rule = config.default_rule
-        self.rules = dict(config.rules)   # current anchored rules (RAM side), anchor -> name
+        self.encoding = config.encoding
+        self.rules = {}                   # current anchored rules (RAM side), anchor BYTES -> name
+        self.rule_keys = {}               # anchor bytes -> the key object the user supplied (bytes or text), re-supplied on reopen
+        for a, n in config.rules.items():
+            self.rules[a.encode(config.encoding) if isinstance(a, str) else a] = n
+            self.rule_keys[a.encode(config.encoding) if isinstance(a, str) else a] = a
         self.own_folder = False
         self.folder = None
         if config.backend == "file":
@@ -82,13 +89,13 @@ class Index(object):
                 self.own_folder = True
             self.folder = folder
         self.traph = None
-        self.open(config.overwrite, dict(config.rules))
+        self.open(config.overwrite, dict(self.rules))
 
     # -- lifecycle ---------------------------------------------------------------------------
     def open(self, overwrite, rules):
-        self.traph = Traph(folder=self.folder, overwrite=overwrite,
+        self.traph = Traph(folder=self.folder, overwrite=overwrite, encoding=self.encoding,
                            default_webentity_creation_rule=RULES[self.default_rule],
-                           webentity_creation_rules={a: RULES[n] for a, n in rules.items()})
+                           webentity_creation_rules={self.rule_keys.get(a, a): RULES[n] for a, n in rules.items()})
 
     def close(self):
         if self.traph is not None:
@@ -157,6 +164,7 @@ class Index(object):
             if kind == "rule":
                 out = _report(t.add_webentity_creation_rule(op[1], RULES[op[2]]))
                 self.rules[B(op[1])] = op[2]
+                self.rule_keys[B(op[1])] = op[1]
                 return out
             if kind == "unrule":
                 ret = t.remove_webentity_creation_rule(op[1])
@@ -170,6 +178,7 @@ class Index(object):
                 t.clear(RULES[op[1]], {a: RULES[n] for a, n in rules.items()})
                 self.default_rule = op[1]
                 self.rules = {B(a): n for a, n in rules.items()}
+                self.rule_keys = {B(a): a for a in rules}
                 return Outcome("ok")
             raise ValueError("unknown op kind %r" % (kind,))
         except TraphException as e:
